@@ -66,4 +66,19 @@ theorem abort_top_level (m : Mode) (p t : Bytes) :
   unfold C36.wildmatch
   simp
 
+/-- `shortcuts_sound`: for every pattern produced by `parse::pattern` (with or without `!`
+handling), every value and every mode, `Pattern::matches` — plain comparison when there is no glob
+character, suffix comparison for `*literal`, the literal-prefix pre-check otherwise — returns what
+`wildmatch` on the pattern text returns. No side condition. -/
+theorem shortcuts_sound (raw : Bytes) (mayAlter : Bool) (pat : Pattern)
+    (h : parsePattern raw mayAlter = some pat) (value : Bytes) (m : Mode) :
+    pat.matches value m = C36.wildmatch m pat.text value :=
+  matches_eq_wildmatch pat (parsePattern_wf raw mayAlter pat h) value m
+
+-- non-vacuity: the three shortcut shapes are produced by the parser
+example : (parsePattern [42, 46, 114, 115] true).map (·.mode.endsWith) = some true := by decide +kernel
+example : (parsePattern [97, 47, 98] true).map (·.firstWildcardPos) = some none := by decide +kernel
+example : (parsePattern [33, 97, 47, 42, 42, 47, 98] true).map (fun p => (p.firstWildcardPos, p.mode.negative)) = some (some 2, true) := by
+  decide +kernel
+
 end GixModel.Props.C36
